@@ -35,6 +35,8 @@ func c12(c *Ctx) {
 	c12R4(c, "R4")
 	sUpToDate(c, "R5/S-UPTODATE", "(*Raft).requestVote", "RequestVoteRequest", "RequestVoteResponse", false, true)
 	sUpToDate(c, "R5/S-UPTODATE", "(*Raft).requestPreVote", "RequestPreVoteRequest", "RequestPreVoteResponse", false, true)
+	sLockDiscipline(c, "R10/S-LOCK", "followerReplication")
+	sAtomicOnly(c, "R10/S-ATOMIC")
 }
 
 func c12R1(c *Ctx, rule string) {
